@@ -24,7 +24,7 @@ use rustc_middle::mir::{
     StatementKind, TerminatorKind,
 };
 use rustc_middle::ty::print::{with_crate_prefix, with_no_trimmed_paths};
-use rustc_middle::ty::{self, Instance, Ty, TyCtxt, TypingEnv};
+use rustc_middle::ty::{self, Instance, Ty, TyCtxt, TypeVisitableExt, TypingEnv};
 use rustc_span::Span;
 use std::fmt::Write as _;
 
@@ -157,7 +157,8 @@ impl<'tcx> Cx<'tcx> {
                 let _ = write!(s, ",\"val\":{}", js(&v));
                 // scalar value when it is one
                 let env = TypingEnv::fully_monomorphized();
-                if ty.is_integral() || ty.is_bool() || ty.is_char() || ty.is_floating_point() {
+                // a constant that still mentions a type parameter (e.g. <T as SizedTypeProperties>::ALIGN) cannot be evaluated here
+                if (ty.is_integral() || ty.is_bool() || ty.is_char() || ty.is_floating_point()) && !c.const_.has_non_region_param() {
                     if let Some(si) = c.const_.try_eval_scalar_int(self.tcx, env) {
                         let bits = si.to_bits_unchecked();
                         let _ = write!(s, ",\"bits\":\"{}\"", bits);
